@@ -459,7 +459,7 @@ Proof.
     + intros d i Hsk. unfold abs_k. rewrite H1, H2.
       assert (Hko : kmatch x0 d i = false).
       { apply kmatch_keys in Hk0. destruct Hk0 as [K1 K2]. unfold kmatch. rewrite K1, K2.
-        unfold same_key in Hsk. rewrite (N.eqb_sym (edev e)), (N.eqb_sym (eino e)). exact Hsk. }
+        unfold same_key in Hsk. exact Hsk. }
       rewrite (alookup_mid_other P x0 Q d i Hko).
       destruct (0 <? links (dec_links x0)); cbn [app]; [|reflexivity].
       rewrite (alookup_mid_other P (dec_links x0) Q d i Hko). reflexivity.
@@ -479,4 +479,111 @@ Proof.
       2:{ eapply nodupk_perm; [symmetry; exact HP|exact Hn']. }
       cbn [alookup]. unfold kmatch. change (canon (new_le e None)) with e.
       unfold same_key in Hsk. rewrite Hsk. reflexivity.
+Qed.
+
+(* ---------------- the refinement theorem ---------------- *)
+Definition outs_for (d i : N) (es : list lentry) (os : list (option lentry * option lentry)) :=
+  flat_map (fun p => if same_key d i (fst p) then [snd p] else []) (combine es os).
+
+Lemma tarlike_strategy t t' unset : tarlike t unset -> strategy t' = strategy t -> tarlike t' unset.
+Proof. unfold tarlike. intros H E. rewrite E. exact H. Qed.
+
+Lemma same_key_eq d i e : same_key d i e = true -> edev e = d /\ eino e = i.
+Proof. unfold same_key. intros H. apply andb_prop in H. destruct H as [A B]. apply N.eqb_eq in A, B. auto. Qed.
+
+Theorem tarlike_refines : forall es t unset t' os,
+  Good t -> tarlike t unset -> push_all t es = (t', os) ->
+  Good t' /\ tarlike t' unset /\ length os = length es /\
+  forall d i,
+    outs_for d i es os =
+      map (fun o => (Some o, None)) (fst (key_spec unset (abs_k t d i) (filter (same_key d i) es))) /\
+    abs_k t' d i = snd (key_spec unset (abs_k t d i) (filter (same_key d i) es)).
+Proof.
+  induction es as [|e r IH]; intros t unset t' os HG HT H; cbn [push_all] in H.
+  - inversion H; subst. split; [exact HG|]. split; [exact HT|]. split; [reflexivity|]. intros d i. split; reflexivity.
+  - destruct (linkify t e) as [t1 o] eqn:EL. destruct (push_all t1 r) as [t2 os2] eqn:EP.
+    inversion H; subst; clear H.
+    destruct (is_passthrough e) eqn:EPass.
+    + (* passes straight through, table untouched *)
+      assert (Ht1 : t1 = t /\ o = (Some e, None)).
+      { unfold linkify in EL. rewrite EPass in EL. inversion EL; auto. }
+      destruct Ht1 as [-> ->].
+      destruct (IH _ _ _ _ HG HT EP) as (G2 & T2 & L2 & K2).
+      split; [exact G2|]. split; [exact T2|]. split; [simpl; f_equal; exact L2|].
+      intros d i. destruct (K2 d i) as [KA KB].
+      unfold outs_for in *. cbn [combine flat_map fst snd filter].
+      destruct (same_key d i e) eqn:ES.
+      * cbn [key_spec]. rewrite EPass.
+        destruct (key_spec unset (abs_k t d i) (filter (same_key d i) r)) as [oo ss] eqn:EK.
+        cbn [fst snd map app] in *. rewrite KA. split; [reflexivity|exact KB].
+      * cbn [app]. split; [exact KA|exact KB].
+    + destruct (tarlike_push t unset e HG HT EPass) as (t1' & EL' & G1 & S1 & A1 & F1).
+      rewrite EL in EL'. inversion EL'; subst t1' o; clear EL'.
+      pose proof (tarlike_strategy _ _ _ HT S1) as HT1.
+      destruct (IH _ _ _ _ G1 HT1 EP) as (G2 & T2 & L2 & K2).
+      split; [exact G2|]. split; [exact T2|]. split; [simpl; f_equal; exact L2|].
+      intros d i. destruct (K2 d i) as [KA KB].
+      unfold outs_for in *. cbn [combine flat_map fst snd filter].
+      destruct (same_key d i e) eqn:ES.
+      * apply same_key_eq in ES. destruct ES as [<- <-].
+        cbn [key_spec]. rewrite EPass. rewrite A1 in KA, KB.
+        destruct (key_spec unset (next_k (abs_k t (edev e) (eino e)) e) (filter (same_key (edev e) (eino e)) r)) as [oo ss] eqn:EK.
+        cbn [fst snd map app] in *. rewrite KA. split; [reflexivity|exact KB].
+      * cbn [app]. rewrite (F1 d i ES) in KA, KB. split; [exact KA|exact KB].
+Qed.
+
+(* the empty table is good, and abstracts to "no live group" for every key *)
+Lemma init_Good strat : Good (init_table strat).
+Proof.
+  split; [split|].
+  - destruct init_size_pow2 as [k Hk]. exists k. unfold init_table; cbn [buckets]. rewrite repeat_length, N2Nat.id. exact Hk.
+  - intros b bl H. unfold init_table in H; cbn [buckets] in H. apply nth_error_repeat_nil in H. subst. constructor.
+  - unfold les, init_table; cbn [buckets]. rewrite repeat_nil_concat. exact I.
+Qed.
+
+Lemma init_abs strat d i : abs_k (init_table strat) d i = None.
+Proof. unfold abs_k, les, init_table; cbn [buckets]. rewrite repeat_nil_concat. reflexivity. Qed.
+
+(* consequence: a complete group that starts on a key with no live group.  n entries with the same
+   (dev, ino), none passing through, the first announcing link count n: the first comes out as it
+   is (it carries the body), each of the others as a hard link to the first pathname (size unset
+   under the tar strategy), and afterwards the key is free again. *)
+Fixpoint marked (unset : bool) (p : bytes) (es : list lentry) : list lentry :=
+  match es with [] => [] | e :: r => mark_hardlink unset e p :: marked unset p r end.
+
+Lemma key_spec_group unset p : forall (rest : list lentry) l,
+  Forall (fun e => is_passthrough e = false) rest ->
+  l = N.of_nat (length rest) -> l < two32 ->
+  key_spec unset (if 0 <? l then Some (p, l) else None) rest = (marked unset p rest, None).
+Proof.
+  induction rest as [|e r IH]; intros l HF Hl Hlt.
+  - simpl in Hl. subst l. reflexivity.
+  - inversion HF; subst. cbn [key_spec]. rewrite H1.
+    assert (Hpos : 0 <? N.of_nat (length (e :: r)) = true) by (apply N.ltb_lt; simpl; lia).
+    rewrite Hpos. cbn [next_k out_k].
+    assert (Hdec : (N.of_nat (length (e :: r)) + two32 - 1) mod two32 = N.of_nat (length r)).
+    { simpl length. rewrite Nat2N.inj_succ.
+      replace (N.succ (N.of_nat (length r)) + two32 - 1) with (N.of_nat (length r) + 1 * two32) by lia.
+      rewrite N.mod_add by (unfold two32; lia). apply N.mod_small. simpl length in Hlt. lia. }
+    rewrite Hdec. rewrite (IH (N.of_nat (length r)) H2 eq_refl) by (simpl length in Hlt; lia).
+    reflexivity.
+Qed.
+
+Theorem group_marking unset e1 (rest : list lentry) :
+  is_passthrough e1 = false -> Forall (fun e => is_passthrough e = false) rest ->
+  enlink e1 = N.of_nat (S (length rest)) -> enlink e1 < two32 ->
+  key_spec unset None (e1 :: rest) = (e1 :: marked unset (epath e1) rest, None).
+Proof.
+  intros H1 HF Hn Hlt. cbn [key_spec]. rewrite H1. cbn [next_k out_k].
+  assert (Hl : (enlink e1 + two32 - 1) mod two32 = N.of_nat (length rest)).
+  { rewrite Hn, Nat2N.inj_succ.
+    replace (N.succ (N.of_nat (length rest)) + two32 - 1) with (N.of_nat (length rest) + 1 * two32) by lia.
+    rewrite N.mod_add by (unfold two32; lia). apply N.mod_small. rewrite Hn, Nat2N.inj_succ in Hlt. lia. }
+  rewrite Hl.
+  pose proof (key_spec_group unset (epath e1) rest (N.of_nat (length rest)) HF eq_refl) as HK.
+  destruct rest as [|e2 r2].
+  - (* a group of one would have link count 1, which passes through *)
+    exfalso. unfold is_passthrough in H1. simpl in Hn. rewrite Hn in H1. cbn in H1. discriminate.
+  - assert (Hpos : 0 <? N.of_nat (length (e2 :: r2)) = true) by (apply N.ltb_lt; simpl; lia).
+    rewrite Hpos in HK. rewrite HK; [reflexivity|]. rewrite Hn, Nat2N.inj_succ in Hlt. lia.
 Qed.
